@@ -154,6 +154,10 @@ def check_cell(r, case, cell):
                 mw, mg = literal_members(wt), literal_members(gt)
                 if mg is None or sorted(mw) != sorted(mg) or is_optional(wt) != is_optional(gt):
                     r.fail("typ", "%s %s: %r -> %r" % (tag, n, wt, gt))
+                elif list(mw) != list(mg):
+                    # "the same ... Enum types": the members of a SQL enumeration are ordered (their order is the sort
+                    # order of the column in several databases); all three variants keep the declared order
+                    r.fail("enum-member-order", "%s %s: %r -> %r" % (tag, n, wt, gt))
             elif gt not in wt_alt:
                 r.fail("typ", "%s %s: %r -> %r" % (tag, n, wt, gt))
             opt = is_optional(wt) or gt == "Optional[dict]"
